@@ -13,6 +13,7 @@ import (
 	"sort"
 	"strings"
 	"sync"
+	"time"
 
 	"github.com/filecoin-project/go-jsonrpc"
 )
@@ -227,6 +228,13 @@ func (h *CP) Mixed(ctx context.Context, a int8, b uint16, c float32, d *string, 
 	h.ret(r)
 	return r, nil
 }
+
+// consecutive parameters of one type: each must be decoded into a fresh value (json.Unmarshal merges into what is there)
+func (h *CP) Pairs(a []int, b []int, c map[string]int, d map[string]int, e *cpInner, f *cpInner, g cpInner, i cpInner) (int, error) {
+	h.rec("Pairs", a, b, c, d, e, f, g, i)
+	h.ret(len(a) + len(b))
+	return len(a) + len(b), nil
+}
 func (h *CP) Raw(ctx context.Context, p jsonrpc.RawParams) (json.RawMessage, error) {
 	h.rec("Raw", []byte(p))
 	h.ret(json.RawMessage(p))
@@ -260,6 +268,7 @@ type cpClient struct {
 	Mixed      func(ctx context.Context, a int8, b uint16, c float32, d *string, e [2]int, f []cpOuter) (cpOuter, error)
 	Raw        func(ctx context.Context, p jsonrpc.RawParams) (json.RawMessage, error)
 	RawE       func(p jsonrpc.RawParams) error
+	Pairs      func(a []int, b []int, c map[string]int, d map[string]int, e *cpInner, f *cpInner, g cpInner, i cpInner) (int, error)
 }
 
 // dynamic types below interface positions, nil-ness of slices / maps / pointers
@@ -513,6 +522,9 @@ func callpathFamily(seed uint64, tier string, args []string) {
 	add("Mixed", int8(5), uint16(65535), float32(0.1), sp("d"), [2]int{1, -2}, outers)
 	add("Mixed", int8(-128), uint16(0), float32(3.4e38), (*string)(nil), [2]int{}, []cpOuter(nil))
 	add("Mixed", int8(127), uint16(1), float32(-0.0), sp(""), [2]int{math.MaxInt64, math.MinInt64}, []cpOuter{})
+	add("Pairs", []int{1, 2, 3}, []int{9, 8}, map[string]int{"a": 1}, map[string]int{"b": 2, "c": 3}, &cpInner{A: 1, B: sp("x")}, &cpInner{A: 2}, cpInner{A: 1, B: sp("x")}, cpInner{A: 2})
+	add("Pairs", []int{}, []int(nil), map[string]int{}, map[string]int(nil), (*cpInner)(nil), &cpInner{}, cpInner{}, cpInner{B: sp("")})
+	add("Pairs", []int{7, 7, 7, 7}, []int{1}, map[string]int{"k": 1, "l": 2}, map[string]int{"k": 5}, &cpInner{A: 9, B: sp("keep?")}, (*cpInner)(nil), cpInner{A: 3, B: sp("b")}, cpInner{})
 	for _, v := range []string{`[1,2,3]`, `{"named":true}`, `"just a string"`, `[]`, `null`, `[{"a":[1,{"b":null}]}]`, `  [ 1 ]  `} {
 		add("Raw", jsonrpc.RawParams(v))
 		add("RawE", jsonrpc.RawParams(v))
@@ -780,14 +792,24 @@ func callpathFamily(seed uint64, tier string, args []string) {
 				// a following call on the same connection orders us after the notification over ws; over http the
 				// notification request has completed when BN returns
 				_ = cl.B1(1)
-				lg.mu.Lock()
-				n := 0
-				for _, c := range lg.calls {
-					if c.Method == "BN" && len(c.Args) == 1 && c.Args[0] == 31337 {
-						n++
+				// handlers of one connection run in their own goroutines: the notified method may be recorded after the
+				// following call has returned, so wait for it (and a little longer, to see a second execution)
+				count := func() int {
+					lg.mu.Lock()
+					defer lg.mu.Unlock()
+					n := 0
+					for _, c := range lg.calls {
+						if c.Method == "BN" && len(c.Args) == 1 && c.Args[0] == 31337 {
+							n++
+						}
 					}
+					return n
 				}
-				lg.mu.Unlock()
+				for dl := time.Now().Add(2 * time.Second); count() == 0 && time.Now().Before(dl); {
+					time.Sleep(time.Millisecond)
+				}
+				time.Sleep(5 * time.Millisecond)
+				n := count()
 				rec := cpRecord{Method: "BN!notify", Transport: transport, Fmt: fi, Basic: false, Outs: "none", Args: []string{"31337"}, Invoked: n, ErrNil: true}
 				if n != 1 {
 					rec.Oracle = fmt.Sprintf("the notified method ran %d times with the argument", n)
